@@ -27,6 +27,12 @@
 (* rows R puts at the positions of rank c is a sub-bag of the pool rows of rank c: equal as  *)
 (* a bag, equal as a sequence wherever ORDER BY determines the order, and free where MySQL   *)
 (* itself is free (ties, LIMIT without a total order).                                       *)
+(*                                                                                        *)
+(* Not modelled: joins, subqueries, HAVING, column aliases, positional ORDER BY, computed   *)
+(* expressions, WHERE beyond two comparisons joined by AND / OR, unique keys, collations     *)
+(* other than byte order, numbers that are not exact tenths, rules other than mod / hash /   *)
+(* range.  Effect / Affected / Rejected give the meaning of UPDATE, DELETE and INSERT .. ON   *)
+(* DUPLICATE KEY UPDATE for property C05.                                                     *)
 EXTENDS Integers, Sequences, FiniteSets, TLC
 
 CONSTANTS Fams,     \* query families to enumerate: subset of AllFams
@@ -218,6 +224,64 @@ Conforms(R, A) ==
                  SelectSeq([i \in DOMAIN A.pool |-> <<A.cls[i], A.pool[i]>>], LAMBDA p : p[1] = cl))
 
 (***************************************************************************************)
+(* The decomposition the proxy relies on, as a design-level statement that TLC checks:    *)
+(* a query can be answered table by table and merged.                                      *)
+(*   plain queries   every table returns its first off+cnt rows under ORDER BY; the union   *)
+(*                   is de-duplicated (DISTINCT), sorted and cut;                           *)
+(*   grouped queries every table returns its groups with partial aggregates, for the        *)
+(*                   select list AND for the ORDER BY items; partial rows of one group are  *)
+(*                   combined (COUNT, SUM: add; MAX, MIN: max / min; NULL-aware), then the   *)
+(*                   merged groups are sorted and cut.  Sound only without COUNT / SUM       *)
+(*                   (DISTINCT) and only when the per-table results are not cut by LIMIT.    *)
+(* MergePlain / MergeGrouped are the recipe; RecipeSound (below) is the theorem.             *)
+(***************************************************************************************)
+TopK(ord, ext, k) ==
+    LET A == Ranked(ord, ext, 0, k)
+        idx == SortSeq([i \in DOMAIN ext |-> i], LAMBDA x, y : A.cls[x] < A.cls[y] \/ (A.cls[x] = A.cls[y] /\ x < y))
+    IN [i \in 1..Len(A.win) |-> ext[idx[i]]]
+
+MergePlain(q, per) ==
+    LET k == IF q.cnt < 0 THEN -1 ELSE q.off + q.cnt
+        parts == [t \in DOMAIN per |-> TopK(q.order, SelectExt(q, per[t]), k)]
+        all == Flatten(parts)
+    IN Ranked(q.order, IF q.distinct THEN DedupBy(all, LAMBDA x : x.out) ELSE all, q.off, q.cnt)
+
+Combine(it, x, y) ==
+    CASE it.f = "col" -> x
+      [] it.f = "count" -> x + y
+      [] OTHER -> IF x = NULL THEN y ELSE IF y = NULL THEN x
+                  ELSE CASE it.f = "sum" -> x + y
+                         [] it.f = "max" -> IF x > y THEN x ELSE y
+                         [] it.f = "min" -> IF x < y THEN x ELSE y
+
+GroupExt(q, rows) ==
+    LET gs == Groups(q, Filter(q.where, rows))
+    IN [k \in DOMAIN gs |-> [gk |-> IF gs[k] = <<>> THEN <<>> ELSE GroupKey(q, gs[k][1]),
+                             out |-> [i \in DOMAIN q.sel |-> AggVal(q.sel[i], gs[k])],
+                             key |-> [i \in DOMAIN q.order |-> AggVal(q.order[i].e, gs[k])]]]
+
+RECURSIVE FoldRows(_, _, _)
+FoldRows(q, acc, rs) ==
+    IF rs = <<>> THEN acc
+    ELSE LET r == Head(rs) IN
+         FoldRows(q, [gk |-> acc.gk,
+                      out |-> [i \in DOMAIN q.sel |-> Combine(q.sel[i], acc.out[i], r.out[i])],
+                      key |-> [i \in DOMAIN q.order |-> Combine(q.order[i].e, acc.key[i], r.key[i])]], Tail(rs))
+
+MergeGrouped(q, per) ==
+    LET all == Flatten([t \in DOMAIN per |-> GroupExt(q, per[t])])
+        keys == Dedup([i \in DOMAIN all |-> all[i].gk])
+        merged == [k \in DOMAIN keys |->
+                      LET rs == SelectSeq(all, LAMBDA r : r.gk = keys[k]) IN FoldRows(q, Head(rs), Tail(rs))]
+    IN Ranked(q.order, [k \in DOMAIN merged |-> [out |-> merged[k].out, key |-> merged[k].key]], q.off, q.cnt)
+
+HasDistinctCountSum(q) == \/ \E i \in DOMAIN q.sel : q.sel[i].d /\ q.sel[i].f \in {"count", "sum"}
+                          \/ \E i \in DOMAIN q.order : q.order[i].e.d /\ q.order[i].e.f \in {"count", "sum"}
+\* two answers are the same answer: same rows with the same ranks, same window
+SameAnswer(A, B) == /\ SameBag([i \in DOMAIN A.pool |-> <<A.pool[i], A.cls[i]>>], [i \in DOMAIN B.pool |-> <<B.pool[i], B.cls[i]>>])
+                    /\ A.win = B.win
+
+(***************************************************************************************)
 (* UPDATE / DELETE / INSERT .. ON DUPLICATE KEY UPDATE                                  *)
 (*   q = [kind, set, where, row];  set = sequence of [c, x]                              *)
 (***************************************************************************************)
@@ -326,11 +390,13 @@ MkQuery(fm, vt, i1, i2, i3, i4, i5, i6) ==
       [] fm = "insdup" -> [kind |-> "insdup", set |-> Sets(vt)[i1], where |-> W0,
                            row |-> <<10 * (i3 % NIds), StrV[(i3 % 7) + 1], IF vt = "varchar" THEN StrV[(i3 % 5) + 1] ELSE NumU[(i3 % 5) + 1]>>]
 
+\* Enumerated index ranges.  For the SELECT families the WHERE clause (index 3, and index 6 of a union) is not
+\* enumerated but drawn per repetition by the sampling hash, like the table content and the configuration.
 Dim(fm) ==
-    CASE fm = "plain" -> <<Len(SelPlain), 2, NWhere, 12, NLimit, 1>>
-      [] fm = "agg"   -> <<NSelAgg - 1, 1, NWhere, 1, 4, 1>>
-      [] fm = "group" -> <<Len(GroupBys), 4, NWhere, NOrder, NLimit, NSelAgg>>
-      [] fm = "union" -> <<Len(SelPlain), 2, NWhere, 4, 5, NWhere>>
+    CASE fm = "plain" -> <<Len(SelPlain), 2, 1, 12, NLimit, 1>>
+      [] fm = "agg"   -> <<NSelAgg - 1, 1, 1, 1, 4, 1>>
+      [] fm = "group" -> <<Len(GroupBys), 4, 1, NOrder, NLimit, NSelAgg>>
+      [] fm = "union" -> <<Len(SelPlain), 2, 1, 4, 5, 1>>
       [] fm = "update" -> <<NSet, 1, NWhere, 1, 1, 1>>
       [] fm = "delete" -> <<1, 1, NWhere, 1, 1, 1>>
       [] fm = "insdup" -> <<NSet, 1, 12, 1, 1, 1>>
@@ -387,8 +453,11 @@ HandSpec == <<
     << <<0, 1, 2>>, <<10, 3, 2>>, <<20, 2, 1>>, <<70, 7, 2>>, <<60, 2, 4>>, <<50, 3, 1>> >>,
     \* one group ranked first on one table but not globally
     << <<0, 5, 4>>, <<0, 5, 4>>, <<0, 5, 4>>, <<20, 7, 4>>, <<10, 7, 5>>, <<10, 7, 5>>, <<30, 7, 3>>, <<10, 3, 3>> >>,
-    << <<10, 2, 5>>, <<20, 3, 4>>, <<30, 4, 3>>, <<40, 5, 2>>, <<50, 6, 1>>, <<60, 7, 5>>, <<70, 1, 4>>, <<0, 1, 1>> >> >>
-NHand == 8
+    << <<10, 2, 5>>, <<20, 3, 4>>, <<30, 4, 3>>, <<40, 5, 2>>, <<50, 6, 1>>, <<60, 7, 5>>, <<70, 1, 4>>, <<0, 1, 1>> >>,
+    \* two groups, each the first group of one table and the second of the other (per-table LIMIT cuts a different one)
+    << <<0, 5, 3>>, <<20, 7, 3>>, <<10, 7, 3>>, <<30, 5, 3>> >>,
+    << <<0, 5, 3>>, <<20, 7, 4>>, <<10, 7, 3>>, <<30, 5, 4>>, <<40, 2, 3>>, <<50, 2, 4>> >> >>
+NHand == 10
 HandRows(vt, i) == [j \in DOMAIN HandSpec[i] |->
                       <<HandSpec[i][j][1], StrV[((HandSpec[i][j][2] - 1) % 7) + 1],
                         VU(vt)[((HandSpec[i][j][3] - 1) % Len(VU(vt))) + 1]>>]
@@ -413,13 +482,17 @@ Mix(fm, i1, i2, i3, i4, i5, i6, salt) ==
 
 Keep(fm, i1, i2, i3, i4, i5, i6) == (Mix(fm, i1, i2, i3, i4, i5, i6, Seed) % Mod) = 0
 
+IsSelectFam(fm) == fm \in {"plain", "agg", "group", "union"}
+
 CaseOf(fm, i1, i2, i3, i4, i5, i6, r) ==
     LET ci == (Mix(fm, i1, i2, i3, i4, i5, i6, Seed + (101 * r) + 7) % NCfg) + 1
         cfg == Cfg(ci)
         di == (Mix(fm, i1, i2, i3, i4, i5, i6, Seed + (13 * r) + 1) % NData) + 1
-    IN [fam |-> fm, ix |-> <<i1, i2, i3, i4, i5, i6, r, di, ci>>, cfg |-> cfg, rows |-> Data(cfg.vt, di),
+        w1 == IF IsSelectFam(fm) THEN (Mix(fm, i1, i2, i3, i4, i5, i6, Seed + (31 * r) + 11) % NWhere) + 1 ELSE i3
+        w2 == IF fm = "union" THEN (Mix(fm, i1, i2, i3, i4, i5, i6, Seed + (37 * r) + 5) % NWhere) + 1 ELSE i6
+    IN [fam |-> fm, ix |-> <<i1, i2, w1, i4, i5, w2, r, di, ci>>, cfg |-> cfg, rows |-> Data(cfg.vt, di),
         sp |-> Mix(fm, i1, i2, i3, i4, i5, i6, Seed + (977 * r) + 3) % NSpell,
-        q |-> MkQuery(fm, cfg.vt, i1, i2, i3, i4, i5, i6)]
+        q |-> MkQuery(fm, cfg.vt, i1, i2, w1, i4, i5, w2)]
 
 VARIABLES ph
 allvars == <<fam, a, b, c, d, e, f, rep, ph>>
@@ -441,8 +514,6 @@ TheCase == CaseOf(fam, a, b, c, d, e, f, rep)
 (***************************************************************************************)
 (* Properties of the specification itself, checked by TLC on every enumerated case        *)
 (***************************************************************************************)
-IsSelectFam(fm) == fm \in {"plain", "agg", "group", "union"}
-
 \* a canonical result (pool sorted by rank, cut by LIMIT) conforms to the answer
 CanonicalResult(q, A) ==
     LET idx == SortSeq([i \in DOMAIN A.pool |-> i], LAMBDA x, y : A.cls[x] < A.cls[y] \/ (A.cls[x] = A.cls[y] /\ x < y))
@@ -466,6 +537,9 @@ SelectProps(cs, A) ==
        \* FilterDecomposes: a pure filter query is answered table by table
        /\ (cs.fam = "plain" /\ ~q.distinct =>
               SameBag(Flatten([t \in DOMAIN per |-> Answer([q EXCEPT !.off = 0, !.cnt = -1], per[t]).pool]), A.pool))
+       \* RecipeSound: the table-by-table decomposition (MergePlain / MergeGrouped) gives the answer
+       /\ (cs.fam = "plain" => Conforms(CanonicalResult(q, MergePlain(q, per)), A))
+       /\ (cs.fam \in {"agg", "group"} /\ ~HasDistinctCountSum(q) => SameAnswer(MergeGrouped(q, per), A))
        \* GroupRowsUnique: one row per group key
        /\ (cs.fam = "group" =>
               Len(A.pool) = Cardinality({GroupKey(q, r) : r \in Range(Filter(q.where, rows))}))
